@@ -1,4 +1,4 @@
-import BiotiteModel.Proofs.C01WF
+import BiotiteModel.Proofs.C01RefStep
 import BiotiteModel.Gen.C01
 /-!
 # C01 — property theorems (atom arrays and stacks stay coherent)
@@ -217,5 +217,85 @@ example : getitem2 exStack (.slice none none none) (.int (-1)) =
 example : delitem exStack (.int 0) = .ok { exStack with coord := [[104, 105, 106]], box := some [202] } := by decide
 example : (subarray { exStack with stack := false, coord := [[101, 102, 103]], box := some [201] }
     (.arr [2, 0, 1] true)).map (·.bonds) = .ok (some ⟨3, [(1, 2, 1), (0, 2, 2)]⟩) := by decide
+
+/-! ## Refinement to the list-of-atoms reference model (`Model/C01Spec.lean`)
+
+`abs` transposes the column store into a list of atom records (annotation record + one coordinate token per
+model), boxes, and bonds as positions in that list; `S…` are the reference operations on such lists.  Each
+theorem says: running the container operation and abstracting equals running the reference operation on the
+abstraction — results **and errors**. -/
+
+/-- every kind of `__getitem__` (1-D and `(i0, i1)`; atoms, arrays, stacks; all index kinds) -/
+theorem C01_refines_getitem (a : Arr) (ix i0 i1 : Index) :
+    Sgetitem (abs a) ix = (getitem a ix).map absVal ∧ Sgetitem2 (abs a) i0 i1 = (getitem2 a i0 i1).map absVal :=
+  ⟨Sgetitem_ref a ix, Sgetitem2_ref a i0 i1⟩
+
+/-- `__setitem__`: an atom into an array (integer, mask, index array), an array into a stack model -/
+theorem C01_refines_setitem (a : Arr) (ix : Index) (v : Val) (hw : WF a) (hv : WFVal v) :
+    Ssetitem (abs a) ix (absVal v) = (setitem a ix v).map abs := Ssetitem_ref a ix v hw hv
+
+/-- `__delitem__`: atom of an array (bonds follow), model of a stack (box follows) -/
+theorem C01_refines_del (a : Arr) (ix : Index) (hw : WF a) : Sdelitem (abs a) ix = (delitem a ix).map abs :=
+  Sdelitem_ref a ix hw
+
+/-- `stack(arrays)` -/
+theorem C01_refines_stack (xs : List Arr) (hw : ∀ a ∈ xs, WF a) :
+    SstackArrays (xs.map abs) = (stackArrays xs).map abs := SstackArrays_ref xs hw
+
+/-- `repeat(atoms, coord)` -/
+theorem C01_refines_repeat (a : Arr) (k : Nat) (toks : List Tok) (hw : WF a) :
+    SrepeatArr (abs a) k toks = (repeatArr a k toks).map abs := SrepeatArr_ref a k toks hw
+
+/-- `add/set/del_annotation`, the `coord`/`box`/`bonds` setters, `from_template`, `array(atoms)` and the
+constructor used by the harness -/
+theorem C01_refines_annot (a : Arr) (k : String) (c : List Tok) (coord : List (List Tok)) (box : Option (List Tok))
+    (bs : Option (List Bond)) :
+    SaddAnnotation (abs a) k = abs (addAnnotation a k) ∧
+    SsetAnnotation (abs a) k c = (setAnnotation a k c).map abs ∧
+    SdelAnnotation (abs a) k = (delAnnotation a k).map abs ∧
+    SsetCoord (abs a) coord = (setCoord a coord).map abs ∧
+    SsetBox (abs a) box = (setBox a box).map abs ∧
+    SsetBonds (abs a) bs = (setBonds a bs).map abs ∧
+    SfromTemplate (abs a) coord box = (fromTemplate a coord box).map abs :=
+  ⟨SaddAnnotation_ref a k, SsetAnnotation_ref a k c, SdelAnnotation_ref a k, SsetCoord_ref a coord,
+   SsetBox_ref a box, SsetBonds_ref a bs, SfromTemplate_ref a coord box⟩
+
+theorem C01_refines_array (xs : List AtomV) : SarrayOf xs = (arrayOf xs).map abs := SarrayOf_ref xs
+
+/-- **Refinement of one step of the register machine**: for every covered operation (`Covered`: all but
+`concatenate` and the `==` observation), every well-formed state, the abstraction of the next state and of
+the output equals the reference step on the abstraction. -/
+theorem C01_refines (st : State) (op : Op) (hst : WFState st) (hc : Covered op) :
+    Sstep (absState st) op = (absState (step st op).1, absOut (step st op).2) :=
+  step_refines st op hst hc
+
+/-- … and for every history of covered operations from the empty register file. -/
+theorem C01_refines_history (ops : List Op) (hc : ∀ op ∈ ops, Covered op) :
+    Srun (absState init) ops = absState (run init ops) := by
+  have key : ∀ (ops : List Op) (st : State), WFState st → (∀ op ∈ ops, Covered op) →
+      Srun (absState st) ops = absState (run st ops) := by
+    intro ops
+    induction ops with
+    | nil => intro st _ _; rfl
+    | cons op r ih =>
+      intro st hst hc
+      simp only [Srun, run, List.foldl_cons]
+      rw [step_refines st op hst (hc op (by simp))]
+      exact ih _ (step_wf st op hst) (fun o ho => hc o (by simp [ho]))
+  exact key ops init C01_wf_init hc
+
+/-- **Defect (bonds.pyx, cannot be rebuilt).**  A size-0 boolean ndarray is accepted by numpy on any axis
+(`resolve` returns the empty selection), and on a container with at least one bond the code then reads the
+mask out of bounds: the model's outcome is `ub`, whereas the list-of-atoms reading of the property asks for
+an `IndexError` (mask of the wrong length).  Replayed in a forked child by the harness. -/
+theorem C01_empty_mask_bonds_defect :
+    ∃ a, WF a ∧ 0 < a.n ∧ resolve a.n (.mask [] .nd) = .ok [] ∧ subarray a (.mask [] .nd) = .error ub :=
+  ⟨{ exStack with stack := false, coord := [[101, 102, 103]], box := some [201] },
+   ⟨by decide, by decide, by decide, fun b hb => by cases hb; rfl,
+    fun b hb => by cases hb; exact ⟨rfl, by decide⟩⟩, by decide, by decide, by decide⟩
+
+example : Covered (.get 1 0 (.slice none none (some (-1)))) := trivial
+example : (abs exStack).atoms = [⟨[("res_id", 21)], [101, 104]⟩, ⟨[("res_id", 22)], [102, 105]⟩, ⟨[("res_id", 23)], [103, 106]⟩] := by
+  decide
 
 end BiotiteModel.C01
